@@ -61,6 +61,23 @@ func init() {
 		"Implies": func(e *Exec, fr *Frame, fn *ssa.Function, a []Value) Value {
 			return e.tf.Implies(a[0].(*Term), a[1].(*Term))
 		},
+		"Ite": func(e *Exec, fr *Frame, fn *ssa.Function, a []Value) Value {
+			c := a[0].(*Term)
+			if c.IsTrue() {
+				return a[1]
+			}
+			if c.IsFalse() {
+				return a[2]
+			}
+			v, ok := e.joinOutcomes([]mergeOutcome{{c, a[1]}, {e.tf.Not(c), a[2]}})
+			if !ok {
+				if e.decide(c) {
+					return a[1]
+				}
+				return a[2]
+			}
+			return v
+		},
 		"Symbolic": func(e *Exec, fr *Frame, fn *ssa.Function, a []Value) Value { return e.tf.Bool(true) },
 	}
 }
